@@ -38,7 +38,8 @@ def run(ck):
         lists_not_changed_while_iterated(ck, "C10.14")
     if ck.wants("C10.15"):
         from .c02 import records_frozen as _rf10
-        _rf10(ck, "C10.15", clause="a record's identity is not rewritten after the record was built (as C02.11): an id mapped back by "
+        from ..report import RuleView as _RV1015
+        _rf10(_RV1015(ck, {"C10.15": "C10.15"}, only_constructs=(":queryId", ":referenceId")), "C10.15", clause="a record's identity is not rewritten after the record was built (as C02.11): an id mapped back by "
                                    "arithmetic (`row.queryId %= ...`) lands on another molecule of the file whenever two ids agree after "
                                    "the mapping - what is written for a molecule then depends on which other molecules the file holds")
     persistent_state(ck, "C10.1")
@@ -282,7 +283,11 @@ def per_query_tasks(ck):
                              "every query is aligned against the reference list as received: a list derived from the other queries "
                              "(e.g. references filtered by the longest query) makes one query's record depend on the rest of the file",
                              found=T.show(r_t)[:200], required=params[0])
-                    ck.judge(q_t[0] == "bv", "C10.6", short(fn) + ":tasks:query", w, "the second component of a task is that query",
+                    # (that query, or something computed from that query alone - `q.trim()`: still one molecule per task; what such
+                    #  a transformation does to second-pass fragments is C02.4's business, not this rule's)
+                    own_only = q_t[0] != "bv" and any(y[0] == "bv" for y in T.subterms(q_t)) and \
+                        not any(T.contains(q_t, other) for other in (queries, refs))
+                    ck.judge(q_t[0] == "bv" or own_only, "C10.6", short(fn) + ":tasks:query", w, "the second component of a task is that query",
                              found=T.show(q_t)[:80])
         if n:
             break
